@@ -25,7 +25,7 @@ ASSUMPTIONS = ["grey (own class, asserted only for 'no holder text lost'): holde
                "the prefix table is taken from the documentation (docs/man/reuse-annotate.rst)"]
 MIN_NONTRIVIAL = {"quick": 5000, "thorough": 200000}
 
-NAMES = ["Jane Doe", "John Smith", "Zoë Müller", "名前 太郎", "O'Neil", "J. R. R. Tolkien", "van der Berg", "Ægir Þórsson", "X Æ A-12"]
+NAMES = ["Jane Doe", "John Smith", "Zoë Müller", "Rene\u0301 Mu\u0308ller", "\u212bngstro\u0308m Lab", "名前 太郎", "O'Neil", "J. R. R. Tolkien", "van der Berg", "Ægir Þórsson", "X Æ A-12"]
 ORGS = ["Example Corp.", "ACME, Inc.", "Acme Inc", "Medical dnl", "SYSTEM REM", "Free Software Foundation Europe e.V.", "AT&T", "Foo-Bar GmbH & Co. KG", "The {project} Authors",
         "Team [core]", "3M Company", "Université de Montréal", "Initech (UK) Ltd", "a/b/c collective", "Déjà Vu S.à r.l.", "Yahoo!", "E*TRADE"]
 SUFFIXES = ["", "", " <jane@example.com>", " <https://example.com>", " (https://example.org/team)", ", and contributors", " et al."]
@@ -128,6 +128,29 @@ def check_verbatim(ctx, res, holder, year, key, rng):
     res.cell("verbatim")
 
 
+OTHER_NOTICE_SHAPES = ["SPDX-SnippetCopyrightText: {y}{h}", "SPDX-SnippetCopyrightText: (C) {y}{h}", "SPDX-SnippetCopyrightText: © {y}{h}",
+                       "SPDX-SnippetCopyrightText: Copyright {y}{h}", "Copyright (c) {y}{h}", "Copyright\t{y}{h}", "copyright {y}{h}", "(C) {y}{h}",
+                       "(c) {y}{h}", "SPDX-FileCopyrightText:\t{y}{h}", "SPDX-FileCopyrightText: (c) {y}{h}"]
+
+
+def check_verbatim_other(ctx, res, holder, year, rng):
+    """Whatever the tool's own reader takes for one whole notice is a notice: kept as it is, not wrapped a second time."""
+    rc, ex = ctx.state["rc"], ctx.state["ex"]
+    statement = rng.choice(OTHER_NOTICE_SHAPES).format(y=(year + " ") if year else "", h=holder)
+    try:
+        is_notice = set(ex.extract_reuse_info(statement).copyright_lines) == {statement}
+    except Exception:  # noqa
+        is_notice = False
+    if not is_notice:
+        res.cell("other-shape-not-a-notice")
+        return
+    res.n += 1
+    out = rc.make_copyright_line(statement, year=rng.choice([None, "2031"]), copyright_prefix=rng.choice(list(notice.PREFIXES)))
+    if out != statement:
+        res.violation("notice-not-kept-verbatim", f"statement {statement!r}, which the reader takes for a notice, became {out!r}")
+    res.cell("verbatim-other-shape:" + statement.split(holder)[0].split(year or "\0")[0].strip()[:34])
+
+
 def check_merge(ctx, res, lines_spec):
     """lines_spec: list of (prefix key, year form, holder)."""
     rc = ctx.state["rc"]
@@ -207,6 +230,8 @@ def run_case(case, ctx):
             check_build(ctx, res, h, y, key)
             if rng.random() < 0.3:
                 check_verbatim(ctx, res, h, y, key, rng)
+            if rng.random() < 0.2:
+                check_verbatim_other(ctx, res, h, y, rng)
     elif kind == "merge":
         rng = rng_for(ctx.seed, "c20m", case["k"])
         for _ in range(case["n"]):
